@@ -1292,6 +1292,8 @@ def generate(unit, template_path, canary=False, extra_fns=(), drop_hints=()):
                     m_ = mask_rust(t)
                     out_, last_ = [], 0
                     for mm_ in re.finditer(r"\b(?:crate::)?(?:[a-z_][a-z0-9_]*::)+(?=[A-Z])", m_):
+                        if re.match(r"(?:std|core|alloc)::", mm_.group(0)):
+                            continue        # paths into the standard library stay as they are
                         out_.append(t[last_:mm_.start()]); last_ = mm_.end()
                     out_.append(t[last_:])
                     return "".join(out_)
